@@ -26,7 +26,7 @@ def gtaCollapse : Bool := true
 
 /-- fingerprints (extract/common FuncHash) of the functions Model/Src.lean was transcribed from -/
 def sourceHashes : List (String × String) :=
-  [("Interpreter.importSrc", "824b3f1f6c71265e"),
+  [("Interpreter.importSrc", "523be9b327589e94"),
    ("Interpreter.rootFromSourceLocation", "ee80b6987c557247"),
    ("Interpreter.pkgDir", "daabd0545f80d74a"),
    ("previousRoot", "72d5bbec27d4b335"),
